@@ -553,6 +553,15 @@ func parseTrailer(t *protocol.Trailer, buf []byte) (int, error) {
 
 // writeTrailer writes response trailer to w
 func WriteTrailer(t *protocol.Trailer, w network.Writer) error {
-	_, err := w.WriteBinary(t.Header())
-	return err
+	// Copied into the writer's memory: t.Header() is the trailer's own scratch buffer,
+	// WriteBinary would keep a block of 4 KiB or more by reference until the flush, and
+	// application code (the Close of a body stream) runs before that and may set a
+	// trailer, which stages its raw value in the same buffer.
+	header := t.Header()
+	buf, err := w.Malloc(len(header))
+	if err != nil {
+		return err
+	}
+	copy(buf, header)
+	return nil
 }
